@@ -3,11 +3,12 @@
 cd "$(dirname "$0")/.."
 TIER=${1:-quick}; shift
 SEEDS=${*:-0}
+LOGDIR=${LOGDIR:-$(mktemp -d /tmp/verif_logs.XXXXXX)}
 for s in $SEEDS; do
   for id in C01 C02 C03 C04 C05 C06 C07 C08 C09 C10 C11 C12 C13 C14 C15 C16 C17 C18 C19 C20; do
     t0=$(date +%s)
-    VERIF_SEED=$s bin/check $id --tier $TIER > /tmp/verif_run_${TIER}_$id.log 2>&1; rc=$?
+    VERIF_SEED=$s bin/check $id --tier $TIER > "$LOGDIR/verif_run_${TIER}_$id.log" 2>&1; rc=$?
     t1=$(date +%s)
-    echo "$id seed=$s rc=$rc $((t1-t0))s $(grep -E 'VIOLATION|MACHINERY|KNOWN' /tmp/verif_run_${TIER}_$id.log | head -3 | cut -c1-160 | tr '\n' ' ')"
+    echo "$id seed=$s rc=$rc $((t1-t0))s $(grep -E 'VIOLATION|MACHINERY|KNOWN' "$LOGDIR/verif_run_${TIER}_$id.log" | head -3 | cut -c1-160 | tr '\n' ' ')"
   done
 done
